@@ -88,7 +88,17 @@ def coq_make(targets=None):
             rc, out = run(["coq_makefile", "-f", "_CoqProject", "-o", "Makefile"], cwd=COQ)
             if rc != 0:
                 return False, out
-        rc, out = run(["timeout", "3000", "make", "-j%d" % NCPU] + (list(targets) if targets else ["-k"]), cwd=COQ, timeout=3100)
+        cmd = ["timeout", "3000", "make", "-j%d" % NCPU] + (list(targets) if targets else ["-k"])
+        rc, out = run(cmd, cwd=COQ, timeout=3100)
+        if rc != 0 and "No rule to make target" in out:
+            # a .v file was renamed or removed since the dependency file was written
+            for f in (".Makefile.d",):
+                try:
+                    os.remove(os.path.join(COQ, f))
+                except OSError:
+                    pass
+            run(["coq_makefile", "-f", "_CoqProject", "-o", "Makefile"], cwd=COQ)
+            rc, out = run(cmd, cwd=COQ, timeout=3100)
         return rc == 0, out
 
 
@@ -235,7 +245,7 @@ class LegResult:
         self.wall = 0.0
 
 
-def run_leg(binary, driver, n, seed, tier, shard=250, corpus=None, single_input=None, extra_env=None, timeout=3000, jobs=None):
+def run_leg(binary, driver, n, seed, tier, shard=250, corpus=None, single_input=None, extra_env=None, timeout=3000, jobs=None, coq_targets=None):
     """Run one driver on the implementation, then evaluate the model on its case files."""
     t0 = time.time()
     lr = LegResult(driver)
@@ -247,6 +257,7 @@ def run_leg(binary, driver, n, seed, tier, shard=250, corpus=None, single_input=
         if single_input is not None:
             cmd += ["-input", single_input]
         env = dict(os.environ)
+        env["VERIF_REPO"] = REPO
         if extra_env:
             env.update(extra_env)
         rc, out = run(cmd, cwd=work, timeout=timeout, env=env)
@@ -262,6 +273,14 @@ def run_leg(binary, driver, n, seed, tier, shard=250, corpus=None, single_input=
         shards = [os.path.join(work, s + ".v") for s in lr.meta.get("shards", [])]
         with ThreadPoolExecutor(max_workers=jobs or NCPU) as ex:
             results = list(ex.map(eval_shard, shards))
+        # a compiled library changed under us (somebody rebuilt part of coq/ meanwhile): rebuild, retry once
+        stale = [i for i, r in enumerate(results) if "error" in r and ("inconsistent assumptions" in r["error"] or "Cannot find a physical path" in r["error"] or "not a valid" in r["error"])]
+        if stale and coq_targets:
+            coq_make(list(coq_targets))
+            with ThreadPoolExecutor(max_workers=jobs or NCPU) as ex:
+                redo = list(ex.map(eval_shard, [shards[i] for i in stale]))
+            for i, r in zip(stale, redo):
+                results[i] = r
         for r in results:
             if "error" in r:
                 lr.errors.append("model evaluation failed on %s: %s" % (r["shard"], r["error"]))
